@@ -173,6 +173,14 @@ def exhaustive(tier):
     # 10**7 away (a diverged chain) - through all three function entry points
     for n_, e_, off_ in [(6, 8000, 1e6), (32, 300, 1e7)] + ([(6, 70000, 1e5), (12, 3000, 1e7), (20, 700, 1e6)] if tier != "quick" else []):
         yield {"kind": "two_scales", "n": n_, "E": e_, "offset": off_, "seed": n_ + e_}
+    # the scorer object with more posterior samples than the default budget of 5000 triples covers (33 samples = 5456 triples, 34 =
+    # 5984) and a budget that covers them all: every triple counts, whatever the generator
+    for n_ in [33] + ([34, 36] if tier != "quick" else []):
+        r_ = np.random.default_rng(n_)
+        rows_ = [{"s": "s%d" % (i % 2), "p": "p%d" % (i % 3), "t": ["t%d" % (i % 2), "t%d" % ((i + 1) % 2)], "d": [1.0, 2.0], "o": 0.5} for i in range(7)]
+        sc_ = {"arity": 2, "control": "ctl", "rows": rows_, "observed": [], "ns": 2, "nt": 4, "layout": None}
+        th_ = [{"kind": "additive", "W": r_.normal(size=(2, 2)).tolist(), "W0": r_.normal(size=2).tolist(), "V2": r_.normal(size=(4, 2)).tolist(), "V1": r_.normal(size=(4, 2)).tolist(), "V0": r_.normal(size=4).tolist(), "alpha": 0.05 * i, "precision": float(r_.uniform(0.5, 4))} for i in range(n_)]
+        yield {"kind": "scorer", "screen": sc_, "thetas": th_, "het": False, "het_scale": [[1.0, 1.0]] * n_, "dist": {"%d,%d" % (i, j): float(0.2 + ((i * 31 + j * 17) % 8) * 0.3) for i in range(n_) for j in range(i)}, "max_chunk": 2, "perm_seed": n_}
     yield {"kind": "big_tensor", "n": 31, "sizes": [3, 3800], "seed": 31}
     if tier != "quick":
         yield {"kind": "big_tensor", "n": 29, "sizes": [5, 2, 4700], "seed": 29}
